@@ -21,14 +21,14 @@ from lib.harness import crashed, guarded
 ID = "C18"
 RULE = (
     "case = valid growth-grammar network in which one element is made the controlled element of a drawn relation "
-    "(vsl-neutral, vsl-finite, in-vs-out, simp-vs-ramp, main-inf) x admissible state x engine {numpy, SX, MX}; VSL "
+    "(vsl-neutral, vsl-finite, in-vs-out, simp-vs-ramp, main-inf) x state (admissible in 3/4 of the cases; otherwise with negative entries and densities above the maximum - the relations are stated for all states) x subset of positivity options x engine {numpy, SX, MX}; VSL "
     "segment sets are arbitrary subsets (empty, non-contiguous, all). Non-trivial = the controlled element has an "
     "active branch in the non-neutral reading (a limit below the equilibrium speed; origin flow not demand-limited; "
     "first-segment speed below the critical speed). Distinct = SHA-1 of the case."
 )
 BUDGET = {"quick": {"examples": 300, "shards": 4}, "thorough": {"fuzz_runs": 3000, "examples": 3000, "shards": 16}}
 RELS = ("vsl-neutral", "vsl-finite", "in-vs-out", "simp-vs-ramp", "main-inf")
-EXPECTED_LABELS = tuple("rel:" + r for r in RELS) + ("engine:numpy", "engine:SX", "engine:MX", "vsl:noncontiguous", "vsl:empty-set",
+EXPECTED_LABELS = tuple("rel:" + r for r in RELS) + ("opts", "inadmissible-values", "engine:numpy", "engine:SX", "engine:MX", "vsl:noncontiguous", "vsl:empty-set",
                                                      "active", "interior-ramp")
 ASSUMPTIONS = ["tolerance 1e-12 x term scale for equalities and for the 'never increases' inequality"]
 
@@ -39,7 +39,12 @@ def cases(draw):
     rel = draw(st.sampled_from(RELS))
     if rel in ("in-vs-out", "simp-vs-ramp", "main-inf") and not sp["origins"]:
         rel = "vsl-finite"
-    state = draw(gen_nets.states(sp))
+    wild = draw(st.integers(0, 3)) == 0
+    state = draw(gen_nets.states(sp, negative=wild, finite_only=False))
+    if wild:  # also densities above the maximum
+        for l in sp["links"]:
+            if draw(st.booleans()):
+                state[l["id"]]["rho"][0] = l["rho_max"] * draw(pos(1.0, 1.3))
     tgt = None
     if rel.startswith("vsl"):
         l = sp["links"][draw(st.integers(0, len(sp["links"]) - 1))]
@@ -62,7 +67,9 @@ def cases(draw):
             o["kind"] = "main"
             l = S.out_links(sp, o["node"])[0]
             state[o["id"]] = {"w": [draw(fl(0, 500))], "d": [draw(fl(0, 8000))], "v_ctrl": [math.inf]}
-            state["$other"] = {"v_ctrl": [state[l["id"]]["v"][0] * (1 + draw(fl(0, 1)))]}
+            v1 = state[l["id"]]["v"][0]
+            # any limit at or above the first-segment speed (raw, and clamped at zero when positive_init_speed is on)
+            state["$other"] = {"v_ctrl": [max(v1, 0.0) + abs(v1) * draw(fl(0, 1))]}
         else:
             o = sp["origins"][draw(st.integers(0, len(sp["origins"]) - 1))]
             o["kind"] = "ramp_in" if rel == "in-vs-out" else "simp_lim"
@@ -72,7 +79,8 @@ def cases(draw):
             else:
                 state[o["id"]]["q"] = [math.inf]
         tgt = o["id"]
-    return {"spec": sp, "state": state, "rel": rel, "target": tgt, "engine": draw(st.sampled_from(["numpy", "SX", "MX"]))}
+    opts = draw(st.one_of(st.just([]), st.just([]), st.lists(st.sampled_from(S.OPT_NAMES), unique=True, max_size=3).map(sorted)))
+    return {"spec": sp, "state": state, "rel": rel, "target": tgt, "engine": draw(st.sampled_from(["numpy", "SX", "MX"])), "opts": opts, "wild": wild}
 
 
 def strategy(tier):
@@ -96,11 +104,11 @@ def other_side(sp, state, rel, tgt):
     return sp2, st2
 
 
-def run(ctx, sp, state, eng, tag):
+def run(ctx, sp, state, eng, tag, opts=()):
     if eng == "numpy":
-        r = guarded(ctx, f"{tag}:numpy-step", S.step_numpy, sp, state)
+        r = guarded(ctx, f"{tag}:numpy-step", S.step_numpy, sp, state, opts)
         return r if crashed(r) else r[0]
-    r = guarded(ctx, f"{tag}:compile", cas.compile_net, sp, eng, 0)
+    r = guarded(ctx, f"{tag}:compile", cas.compile_net, sp, eng, 0, False, opts)
     if crashed(r):
         return r
     F, net, els = r
@@ -119,8 +127,13 @@ def check_case(case, ctx):
     ctx.label(*S.features(sp))
     ctx.label("rel:" + rel, "engine:" + eng)
     sp2, st2 = other_side(sp, case["state"], rel, tgt)
-    a = run(ctx, sp, state, eng, "controlled")
-    b = run(ctx, sp2, st2, eng, "neutral")
+    opts = case.get("opts") or []
+    if opts:
+        ctx.label("opts")
+    if case.get("wild"):
+        ctx.label("inadmissible-values")
+    a = run(ctx, sp, state, eng, "controlled", opts)
+    b = run(ctx, sp2, st2, eng, "neutral", opts)
     if crashed(a) or crashed(b):
         return
     scales = refmodel.scales(sp2, st2)
@@ -155,8 +168,16 @@ def check_case(case, ctx):
             for k in range(len(arr)):
                 x, y = float(g[k]), float(arr[k])
                 sc = scales[i][var][k]
-                if not (math.isfinite(x) and math.isfinite(y) and math.isfinite(sc)):
-                    if not ((x != x and y != y) or x == y):
+                if y != y or x != x:
+                    # NaN (negative density under a real exponent): min/max treat NaN differently from arithmetic,
+                    # so nothing is claimed about entries that are NaN on either side
+                    ctx.count("nan_skipped")
+                    continue
+                if not math.isfinite(sc):
+                    ctx.count("scale_nonfinite_skipped")
+                    continue
+                if not (math.isfinite(x) and math.isfinite(y)):
+                    if x != y and (i, var, k) not in limited:
                         ctx.fail(f"{rel}:{eng}:nonfinite:{var}", f"{rel}: {var}+ of {i}[{k}]: controlled {x!r}, neutral {y!r}")
                     continue
                 tol = 1e-12 * sc + 1e-300
